@@ -81,6 +81,16 @@ CHECKS = {
         note=NOTE + " unimock 0.6.8 / mockall 0.12.1 derives as shipped.",
         technique="exhaustive enumeration of a finite configuration lattice on the real macro, decision-table model",
         ref="DESIGN.md §3 C10"),
+    "C12": dict(
+        text="6 input modes (fn, mod, entraited trait, trait + static impl block, leaf trait by ref, trait + dyn impl block) x 5 return kinds (unit, owned, "
+             "borrowed from deps, borrowed from an argument with a named lifetime, generic) x {default, ?Send} x {native, async_trait} x {clean body, body "
+             "holding an Rc across an await}: every state is compiled; the Output type is ascribed (`output_is::<R,_>`), declared Send-ness is read as a "
+             "runtime boolean in a generic context `fn p<D: Tr>(d: &D)`, the future is driven to completion and its value compared; non-Send bodies must "
+             "compile under ?Send and be rejected ('cannot be sent between threads') by default; under async_trait the async fn must be kept and the "
+             "attribute re-applied to every generated trait and trait impl (structural view).",
+        note=NOTE + " One open known finding (borrow from deps through a dyn delegation target) is listed in known_findings.json.",
+        technique="exhaustive enumeration of async programs on the real macro; compile-time witnesses, runtime Send probe, negative compile probes, structural view",
+        ref="DESIGN.md §3 C12"),
     "C13": dict(
         text="Every (input mode, requested visibility, item visibility) program - fn: 5 requested x 3 fn visibilities; mod: 3 requested x module visibility "
              "x fn visibility, through the re-export and through the module; trait: 4 trait visibilities x static/ref delegation target x attribute-side "
